@@ -236,13 +236,75 @@ def default_of(sig, name):
     return p.default
 
 
+# --- provenance: the caller's aux values are replaced by distinguishable sentinel objects ---------
+
+
+class TagInt(int):
+    pass
+
+
+class TagFloat(float):
+    pass
+
+
+class TagComplex(complex):
+    pass
+
+
+class TagStr(str):
+    pass
+
+
+class TagTuple(tuple):
+    pass
+
+
+def tag_value(v):
+    """a sentinel that behaves like `v` but has its own identity (None and bool cannot be tagged;
+    lists, dicts, ndarrays, callables, file objects already have identity)"""
+    if isinstance(v, (bool, type(None))) or _is_q(v):
+        return v
+    if type(v) is int:
+        return TagInt(v)
+    if type(v) is float:
+        return TagFloat(v)
+    if type(v) is complex:
+        return TagComplex(v)
+    if type(v) is str:
+        return TagStr(v)
+    if type(v) is tuple and not has_quantity(v) and not any(isinstance(x, np.ndarray) for x in v):
+        return TagTuple(v)
+    return v
+
+
+def tag_call(args, kwargs):
+    return [tag_value(a) for a in args], {k: tag_value(v) for k, v in kwargs.items()}
+
+
+def provenance(r, c, depth=0):
+    """the received value IS the caller's argument: the same object, or (arrays) a view of the
+    caller's buffer with the same shape and strides, element-wise through lists/tuples"""
+    if r is c:
+        return True
+    if isinstance(r, np.ndarray) and isinstance(c, np.ndarray):
+        return (r.shape == c.shape and r.strides == c.strides and r.dtype == c.dtype
+                and r.__array_interface__["data"][0] == c.__array_interface__["data"][0])
+    if isinstance(r, (list, tuple)) and isinstance(c, (list, tuple)) and depth < 6:
+        return len(r) == len(c) and all(provenance(x, y, depth + 1) for x, y in zip(r, c))
+    return False
+
+
 def relate(target_func, caller_flat, caller_sig, cr):
     """per-parameter verdicts of one recorded kernel call against the caller's bound arguments.
-    verdict ∈ same | sameRaw | dropped | changed | injected | copied"""
+    verdict ∈ same | sameRaw | dropped | changed | injected | copied.
+    `same` means PROVENANCE (`provenance`: the object / buffer the caller passed) — or, for the
+    parameters also listed in cr["by_value"], only equality of value after stripping (None, bool,
+    values the handler converts, e.g. np.asarray(list), and defaults the handler elides)."""
     recv, _ = bind(target_func, cr["args"], cr["kwargs"])
     if recv is None:
         return None
     out = []
+    by_value = []
     names = list(caller_flat)
     for n in recv:
         if n not in caller_flat:
@@ -250,17 +312,26 @@ def relate(target_func, caller_flat, caller_sig, cr):
     for n in names:
         if n in caller_flat and n in recv:
             c, r = caller_flat[n], recv[n]
-            if eq_stripped(r, c):
-                if n == "out" and isinstance(c, np.ndarray) and not aliases(r, c):
+            if provenance(r, c):
+                v = "sameRaw" if has_quantity(r) else "same"
+                if c is None or isinstance(c, bool):
+                    by_value.append(n)  # no identity to speak of: rests on the static column
+            elif eq_stripped(r, c):
+                if n == "out" and isinstance(c, np.ndarray):
                     v = "copied"
                 else:
                     v = "sameRaw" if has_quantity(r) else "same"
+                    by_value.append(n)
             else:
                 v = "changed"
         elif n in caller_flat:
             d = default_of(caller_sig, n)
             c = caller_flat[n]
-            v = "same" if (d is not _MISSING and (d is c or (d is not np._NoValue and eq_stripped(d, c)))) else "dropped"
+            if d is not _MISSING and (d is c or (d is not np._NoValue and eq_stripped(d, c))):
+                v = "same"  # the caller spelled out NumPy's default and the handler elides it
+                by_value.append(n)
+            else:
+                v = "dropped"
         else:
             d = default_of(caller_sig, n)
             r = recv[n]
@@ -268,6 +339,7 @@ def relate(target_func, caller_flat, caller_sig, cr):
             if v == "same":
                 continue  # a default spelled out: not a parameter of this call
         out.append((n, v))
+    cr["by_value"] = by_value
     return out
 
 
@@ -324,6 +396,7 @@ def trace_case(t, dk, sc, seed, out_mode="unyt", units=("m", "s", "kg")):
     func = C.resolve(t.func)
     fid = C.canonical_func(t)
     args, kwargs, _objs = call.materialize(C.unyt_wrap(units, out=out_mode))
+    args, kwargs = tag_call(args, kwargs)
     caller_flat, caller_sig = bind(func, args, kwargs)
     if caller_flat is None:
         return None
@@ -373,8 +446,23 @@ def trace_case(t, dk, sc, seed, out_mode="unyt", units=("m", "s", "kg")):
             else:
                 post = "id" if D.same(D.canon(_strip(res)), D.canon(_strip(k0["result"]))) else "changed"
     rec_out["params"] = params
+    rec_out["by_value"] = sorted(top[0].get("by_value") or []) if top else []
+    rec_out["by_value_vals"] = [(p, _value_digest(caller_flat.get(p))) for p in rec_out["by_value"]]
     rec_out["post"] = post
     return rec_out
+
+
+def _value_digest(v):
+    """a short stable description of a caller value (to count distinct observed values)"""
+    import hashlib
+
+    try:
+        sv = _strip(v)
+        if isinstance(sv, np.ndarray):
+            return "nd:" + hashlib.sha1(np.ascontiguousarray(sv).tobytes() + str(sv.shape).encode()).hexdigest()[:12]
+        return repr(sv)[:80]
+    except Exception:  # noqa: BLE001
+        return "?"
 
 
 def _strip(x, depth=0):
@@ -484,3 +572,222 @@ def static_dropped(func, handler):
         elif has_star and star_dead:
             dropped.append(p)
     return dropped
+
+
+# --------------------------------------------------------------------------------------
+# static provenance: which handler parameter feeds which numpy parameter of the kernel call
+
+
+def static_forward(func, handler):
+    """ast pass, independent of the dynamic trace.  For every `<np.f>._implementation(...)` call
+    site of `handler` (and of the same-module helper it delegates to, parameters substituted), each
+    argument expression is classified:
+       direct  : NAME | np.asarray(NAME) | [np.asarray(_) for _ in NAME] |
+                 np.asarray(NAME) if NAME is not None else None        (NAME a handler parameter)
+       derived : any other expression / local variable whose definition mentions handler parameters
+    and bound to the numpy parameter it feeds (position / keyword, through `inspect.signature(func)`).
+    Returns dict(direct, derived (⊇ direct): numpy parameter names fed from the handler parameter in
+    the same slot (same position or same name); star_pos / star_kw: a call site forwards the handler's
+    *args / **kwargs (or feeds numpy parameters from them); named: numpy-space names of the handler's
+    named parameters; crossed: numpy parameters fed from a handler parameter of ANOTHER slot)."""
+    import unyt._array_functions as AF
+
+    out = dict(direct=[], derived=[], star_pos=False, star_kw=False, named=[], crossed=[], const=[])
+    try:
+        hsig = inspect.signature(handler)
+        nsig = inspect.signature(func)
+        tree = ast.parse(textwrap.dedent(inspect.getsource(handler)))
+    except Exception:  # noqa: BLE001
+        return out
+    fdef = next((n for n in ast.walk(tree) if isinstance(n, ast.FunctionDef)), None)
+    nparams = [(n, q) for n, q in nsig.parameters.items()]
+    npos = [n for n, q in nparams if q.kind in (q.POSITIONAL_ONLY, q.POSITIONAL_OR_KEYWORD)]
+    nvarpos = next((n for n, q in nparams if q.kind is q.VAR_POSITIONAL), None)
+    hnamed = [n for n, q in hsig.parameters.items() if q.kind not in (q.VAR_POSITIONAL, q.VAR_KEYWORD)]
+    hpos = [n for n, q in hsig.parameters.items() if q.kind in (q.POSITIONAL_ONLY, q.POSITIONAL_OR_KEYWORD)]
+    hvarpos = next((n for n, q in hsig.parameters.items() if q.kind is q.VAR_POSITIONAL), None)
+    hvarkw = next((n for n, q in hsig.parameters.items() if q.kind is q.VAR_KEYWORD), None)
+    # the numpy-space name of a handler parameter: the numpy parameter in the same positional slot,
+    # else the same name
+    def np_name(hp):
+        if hp in hpos and hpos.index(hp) < len(npos):
+            return npos[hpos.index(hp)]
+        return hp
+    out["named"] = [np_name(h) for h in hnamed]
+
+    def names_in(node):
+        return {n.id for n in ast.walk(node) if isinstance(n, ast.Name)}
+
+    def is_asarray(node):
+        return (isinstance(node, ast.Call) and isinstance(node.func, ast.Attribute) and node.func.attr == "asarray"
+                and isinstance(node.func.value, ast.Name) and node.func.value.id == "np" and len(node.args) == 1 and not node.keywords)
+
+    def classify(node, env, local_defs, depth=0):
+        """(kind, {handler params}) of an argument expression; env: name -> (kind, params) for the
+        names in scope (handler parameters map to ('direct', {p}))"""
+        if isinstance(node, ast.Constant):
+            return "const", set()
+        if isinstance(node, ast.Name):
+            if node.id in local_defs and depth < 4:
+                kinds, ps = set(), set()
+                for d in local_defs[node.id]:
+                    k, q = classify(d, env, {k2: v for k2, v in local_defs.items() if k2 != node.id} if node.id not in env else local_defs, depth + 1) \
+                        if not (isinstance(d, ast.Name) and d.id == node.id) else env.get(node.id, ("derived", set()))
+                    kinds.add(k)
+                    ps |= q
+                if node.id in env:  # a parameter that is (maybe conditionally) re-assigned
+                    ps |= env[node.id][1]
+                    kinds.add("derived" if kinds - {"direct", "const"} else "direct")
+                kind = "direct" if kinds <= {"direct", "const"} and len(ps) <= 1 else "derived"
+                return kind, ps
+            if node.id in env:
+                return env[node.id]
+            return "derived", set()
+        if is_asarray(node):
+            k, ps = classify(node.args[0], env, local_defs, depth + 1)
+            return k, ps
+        if isinstance(node, ast.ListComp) and len(node.generators) == 1 and is_asarray(node.elt):
+            g = node.generators[0]
+            if isinstance(node.elt.args[0], ast.Name) and isinstance(g.target, ast.Name) and node.elt.args[0].id == g.target.id and not g.ifs:
+                return classify(g.iter, env, local_defs, depth + 1)
+        if isinstance(node, ast.IfExp) and isinstance(node.orelse, ast.Constant) and node.orelse.value is None:
+            k, ps = classify(node.body, env, local_defs, depth + 1)
+            tn = names_in(node.test)
+            if len(tn) == 1 and all(env.get(t, ("", set()))[1] == ps for t in tn):
+                return k, ps
+        ps = set()
+        for nm in names_in(node):
+            if nm in local_defs and depth < 4:
+                for d in local_defs[nm]:
+                    ps |= classify(d, env, {k2: v for k2, v in local_defs.items() if k2 != nm}, depth + 1)[1]
+            if nm in env:
+                ps |= env[nm][1]
+        return "derived", ps
+
+    def collect_locals(fnode):
+        defs = {}
+        for n in ast.walk(fnode):
+            if isinstance(n, ast.Assign):
+                for tg in n.targets:
+                    if isinstance(tg, ast.Name):
+                        defs.setdefault(tg.id, []).append(n.value)
+                    elif isinstance(tg, (ast.Tuple, ast.List)):
+                        for e in tg.elts:
+                            e2 = e.value if isinstance(e, ast.Starred) else e
+                            if isinstance(e2, ast.Name):
+                                defs.setdefault(e2.id, []).append(n.value)
+            elif isinstance(n, ast.AugAssign) and isinstance(n.target, ast.Name):
+                defs.setdefault(n.target.id, []).append(n.value)
+            elif isinstance(n, ast.NamedExpr) and isinstance(n.target, ast.Name):
+                defs.setdefault(n.target.id, []).append(n.value)
+        return defs
+
+    fed = {}  # numpy parameter -> set of kinds over all call sites
+
+    def record(numpy_param, kind, ps, node=None):
+        """numpy_param fed by an expression over handler parameters ps"""
+        same_slot = {h for h in ps if np_name(h) == numpy_param}
+        stars = {h for h in ps if h in (hvarpos, hvarkw)}
+        if kind == "const":
+            if not (isinstance(node, ast.Constant) and node.value is None):
+                fed.setdefault(numpy_param, set()).add("const")  # a literal other than None
+            return
+        if same_slot:
+            fed.setdefault(numpy_param, set()).add("direct" if (kind == "direct" and ps == same_slot) else "derived")
+        elif stars and numpy_param not in out["named"]:
+            if hvarpos in stars:
+                out["star_pos"] = True
+            if hvarkw in stars:
+                out["star_kw"] = True
+        elif ps - stars:
+            fed.setdefault(numpy_param, set()).add("crossed")
+        else:
+            fed.setdefault(numpy_param, set()).add("const")  # an expression over no parameter at all
+
+    def site(call, env, local_defs):
+        i = 0
+        starred = False
+        for a in call.args:
+            if isinstance(a, ast.Starred):
+                k, ps = classify(a.value, env, local_defs)
+                if hvarpos in ps:
+                    out["star_pos"] = True
+                starred = True
+                continue
+            k, ps = classify(a, env, local_defs)
+            if not starred:
+                name = npos[i] if i < len(npos) else (f"*{nvarpos}[{i - len(npos)}]" if nvarpos else f"#{i}")
+                # a numpy function whose first parameter is *operands (einsum): positional i is *operands[i]
+                if not npos and nvarpos:
+                    name = f"*{nvarpos}[{i}]"
+                record(name, k, ps, a)
+            i += 1
+        for kw in call.keywords:
+            if kw.arg is None:
+                # **NAME where NAME is a local dict literal {"num": num, ...}: one keyword per key
+                dicts = [d for d in local_defs.get(kw.value.id, [])] if isinstance(kw.value, ast.Name) else []
+                if dicts and all(isinstance(d, ast.Dict) for d in dicts):
+                    for d in dicts:
+                        for kk, vv in zip(d.keys, d.values):
+                            if isinstance(kk, ast.Constant) and isinstance(kk.value, str):
+                                k, ps = classify(vv, env, {})
+                                record(kk.value, k, ps, vv)
+                    continue
+                k, ps = classify(kw.value, env, local_defs)
+                if hvarkw in ps:
+                    out["star_kw"] = True
+                continue
+            k, ps = classify(kw.value, env, local_defs)
+            record(kw.arg, k, ps, kw.value)
+
+    def scan(fnode, env, depth=0):
+        local_defs = collect_locals(fnode)
+        for n in ast.walk(fnode):
+            if not isinstance(n, ast.Call):
+                continue
+            f = n.func
+            if isinstance(f, ast.Attribute) and f.attr == "_implementation":
+                site(n, env, local_defs)
+            elif isinstance(f, ast.Attribute) and isinstance(f.value, ast.Name) and f.value.id == "np" and f.attr == getattr(func, "__name__", ""):
+                site(n, env, local_defs)  # the public function on stripped arguments (np.interp)
+            elif isinstance(f, ast.Name) and depth < 2:
+                helper = getattr(AF, f.id, None)
+                if isinstance(helper, types.FunctionType) and helper.__module__ == AF.__name__ and helper is not handler:
+                    try:
+                        hs = ast.parse(textwrap.dedent(inspect.getsource(helper)))
+                        hd = next((m for m in ast.walk(hs) if isinstance(m, ast.FunctionDef)), None)
+                        hsg = inspect.signature(helper)
+                    except Exception:  # noqa: BLE001
+                        continue
+                    if hd is None or not any(isinstance(m, ast.Attribute) and m.attr == "_implementation" for m in ast.walk(hd)):
+                        continue
+                    # substitute the helper's parameters by the caller's argument expressions
+                    henv = {}
+                    hp_pos = [q for q, v in hsg.parameters.items() if v.kind in (v.POSITIONAL_ONLY, v.POSITIONAL_OR_KEYWORD)]
+                    hv_pos = next((q for q, v in hsg.parameters.items() if v.kind is v.VAR_POSITIONAL), None)
+                    hv_kw = next((q for q, v in hsg.parameters.items() if v.kind is v.VAR_KEYWORD), None)
+                    j = 0
+                    for a in n.args:
+                        if isinstance(a, ast.Starred):
+                            if hv_pos:
+                                henv[hv_pos] = classify(a.value, env, local_defs)
+                            continue
+                        if j < len(hp_pos):
+                            henv[hp_pos[j]] = classify(a, env, local_defs)
+                        j += 1
+                    for kw in n.keywords:
+                        if kw.arg is None:
+                            if hv_kw:
+                                henv[hv_kw] = classify(kw.value, env, local_defs)
+                        else:
+                            henv[kw.arg] = classify(kw.value, env, local_defs)
+                    scan(ast.Module(body=hd.body, type_ignores=[]), henv, depth + 1)
+
+    env0 = {n: ("direct", {n}) for n in hsig.parameters}
+    scan(ast.Module(body=fdef.body, type_ignores=[]), env0)
+    # a parameter counts as fed directly / derivedly only if EVERY call site that feeds it does so
+    out["direct"] = sorted(p for p, ks in fed.items() if ks <= {"direct"})
+    out["derived"] = sorted(p for p, ks in fed.items() if ks <= {"direct", "derived"})
+    out["crossed"] = sorted(p for p, ks in fed.items() if "crossed" in ks)
+    out["const"] = sorted(p for p, ks in fed.items() if "const" in ks)
+    return out
